@@ -83,3 +83,17 @@ Proof.
   induction l as [|a l IH]; intro H; simpl; [reflexivity|].
   rewrite (H a (or_introl eq_refl)). f_equal. apply IH. intros x Hx. apply H. right. exact Hx.
 Qed.
+
+Lemma flat_map_ext_in {A B} (f g : A -> list B) (l : list A) :
+  (forall x, In x l -> f x = g x) -> flat_map f l = flat_map g l.
+Proof.
+  induction l as [|a l IH]; intro H; simpl; [reflexivity|].
+  rewrite (H a (or_introl eq_refl)). f_equal. apply IH. intros x Hx. apply H. right. exact Hx.
+Qed.
+
+Lemma nth_firstn_lt {A} (l : list A) (d : A) : forall i k, i < k -> nth i (firstn k l) d = nth i l d.
+Proof.
+  induction l as [|a l IH]; intros i k H.
+  - rewrite firstn_nil. reflexivity.
+  - destruct k as [|k]; [lia|]. destruct i as [|i]; simpl; [reflexivity|]. apply IH. lia.
+Qed.
